@@ -73,6 +73,24 @@ theorem k2p_end_to_end (env : Env) (argv : List String) (d : Dest) (t : IO.Str)
     rw [ht]
     exact (C18.written_text_readable _ _ hcwf hpr u').1
 
+/-- (b) `tool_output_readable` for kthlist2pebbling: what a successful run wrote is the DIMACS rendering of a well-formed
+formula `G`; when its two counts are printable (at most 4300 digits — the graph lexer of the model has no digit limit,
+so this is a hypothesis here; for cnfshuffle it is proved) the strict reader applied to the written CHARACTERS returns `G`,
+the problem row states the true counts, every row before it is a comment and every row after it a clause -/
+theorem tool_output_readable_k2p (env : Env) (argv : List String) (d : Dest) (t : IO.Str)
+    (h : k2pRun env argv = some (.ok d t)) :
+    ∃ G : CNF, G.WF ∧ (∃ hdr, t = renderDimacsText G hdr none) ∧
+      (C06.Printable G → ∀ u : Bool, readDimacsText u t = .ok G ∧
+        ∃ comments : List Row,
+          lex u t = comments ++ [Tok.word ['p'], Tok.word "cnf".toList, Tok.int (G.nvars : Int), Tok.int (G.clauses.length : Int)] ::
+            G.clauses.map (fun c => c.map Tok.int ++ [Tok.int 0]) ∧
+          ∀ r ∈ comments, r.cls = .comment ∧ ∃ rest, r = Tok.word ['c'] :: rest) := by
+  obtain ⟨st, s, u, n, D, _, _, _, _, _, _, ht, hwf, _⟩ := k2p_end_to_end env argv d t h
+  refine ⟨(peb D).toCNF, hwf, ⟨_, ht⟩, ?_⟩
+  intro hp u'
+  rw [ht]
+  exact C18.written_text_readable _ _ hwf hp u'
+
 /-- T-C17.6b the tool and `cnfgen peb <file>`: by `kthlist2pebbling_is_peb` both command lines make ONE library call, the
 same generator `PebblingFormula` applied to one graph and nothing else; `pebbling` is the model of that generator
 (compared with it by the correspondence of C03), and the tool writes exactly `pebbling D` of the DAG it read -/
